@@ -201,3 +201,9 @@ Definition history_eq (a b : list (N * bytes * N * option (outcome (list N)))) :
     let '(d, o, s, p) := x in let '(d', o', s', p') := y in
     (d =? d') && beq_bytes o o' && (s =? s') &&
     match p, p' with Some u, Some v => same_out u v | None, None => true | _, _ => false end) a b.
+
+(* --- Compose on a value that carries a user-data header: the full state of a ShortMessage is (data_coding, header, octets).
+   Compose reads none of them and writes data_coding and octets; the header stays.  [hdr] is abstract: whatever the value held. *)
+Definition compose_step_u {H : Type} (m : N * H * bytes) (rs : list N) : (N * H * bytes) * N :=
+  let '(dc, u, o) := m in
+  let '((dc', o'), st) := compose_step (dc, o) rs in ((dc', u, o'), st).
